@@ -21,5 +21,5 @@ run() { # engine prop
 }
 for p in C01 C05 C07 C09 C12 C13 C15 C22 C23; do run e1 $p; done
 run e1p C26
-for p in C08 C14 C16 C17 C18 C19 C20 C21 C22 C24; do run e3 $p; done
+for p in C08 C14 C16 C17 C18 C19 C20 C21 C22 C23 C24; do run e3 $p; done
 exit $fail
